@@ -296,8 +296,14 @@ class sptenmat:
         subs = None
         if self.subs.size > 0:
             tshape = np.array(self.tshape)
-            rdims = tt_ind2sub(tshape[self.rdims], self.subs[:, 0])
-            cdims = tt_ind2sub(tshape[self.cdims], self.subs[:, 1])
+            # A side without modes contributes no subscript columns
+            nnz = self.subs.shape[0]
+            rdims = np.empty((nnz, 0), dtype=int)
+            if self.rdims.size > 0:
+                rdims = tt_ind2sub(tshape[self.rdims], self.subs[:, 0])
+            cdims = np.empty((nnz, 0), dtype=int)
+            if self.cdims.size > 0:
+                cdims = tt_ind2sub(tshape[self.cdims], self.subs[:, 1])
             subs = np.zeros(
                 (rdims.shape[0], rdims.shape[1] + cdims.shape[1]), dtype=int
             )
